@@ -207,12 +207,12 @@ class Intern:
         absn = [k for k in self.ids if k.startswith("/") and len(k) > 12]
         pre = os.path.commonprefix(absn) if len(absn) > 3 else ""
         use = len(pre) > 8
-        out = "Definition %s_pre : text := %s.\n" % (self.prefix, coq.ctext(pre)) if use else ""
+        out = "Definition %s_pre : text := %s.\n" % (self.prefix, ctext_ids(pre)) if use else ""
         for k, v in self.ids.items():
             if use and k.startswith(pre):
-                out += "Definition %s : text := %s_pre ++ %s.\n" % (v, self.prefix, coq.ctext(k[len(pre):]))
+                out += "Definition %s : text := %s_pre ++ %s.\n" % (v, self.prefix, ctext_ids(k[len(pre):]))
             else:
-                out += "Definition %s : text := %s.\n" % (v, coq.ctext(k))
+                out += "Definition %s : text := %s.\n" % (v, ctext_ids(k))
         return out
 
 
@@ -247,25 +247,25 @@ class Group:
                         raise ValueError("result not sorted/duplicate free: %r" % (reals[qi],))
                     u.update(reals[qi])
             universes.append(sorted(u))
-        skel = "[" + "; ".join("(%d, %s, %s)" % (pa, it.t(n), it.tl(fs)) for pa, n, fs in self.skel) + "]"
+        skel = "[" + "; ".join("(%s, %s, %s)" % (nid(pa), it.t(n), it.tl(fs)) for pa, n, fs in self.skel) + "]"
         qs = "[" + ";\n ".join("(%s, %s, %s, %s, %s, %s, %s, %s)" % (it.t(c), it.t(p), coq.cbool(ine), coq.cbool(ign), it.t(wp), it.tl(ex), coq.cbool(cn),
                                                                      it.tl(u)) for (c, p, ine, ign, wp, ex, cn), u in zip(self.statics, universes)) + "]"
         rels = sorted(self.rels, key=self.rels.get)
         lits = []
         for igs, tbl, reals, _m in self.cases:
-            ig = "[" + "; ".join("(%d, %s, %s)" % (di, it.t(f), "None" if sp is None else "Some %d" % sp) for di, f, sp in igs) + "]" \
+            ig = "[" + "; ".join("(%s, %s, %s)" % (nid(di), it.t(f), "None" if sp is None else "Some %s" % nid(sp)) for di, f, sp in igs) + "]" \
                 if igs else "(@nil (nat * text * option nat))"
-            tb = "[" + "; ".join("(%d, [%s])" % (sid, "; ".join(map(str, ix))) for sid, ix in sorted(tbl.items())) + "]" \
+            tb = "[" + "; ".join("(%s, [%s])" % (nid(sid), "; ".join(map(nid, ix))) for sid, ix in sorted(tbl.items())) + "]" \
                 if tbl else "(@nil (nat * list nat))"
             ms = []
             for real, u in zip(reals, universes):
-                # 0 = SQLFluffUserError, m + 1 = the bit mask m over the universe (a plain N list: scope delimiters per element are slow to read)
+                # None = SQLFluffUserError, Some mask = which names of the universe were returned (booleans: Coq reads numerals slowly)
                 if real is None:
-                    ms.append("0")
+                    ms.append("None")
                 else:
                     have = set(real)
-                    ms.append("%d" % (1 + sum(1 << i for i, x in enumerate(u) if x in have)))
-            lits.append("(%s, %s, [%s]%%N)" % (ig, tb, "; ".join(ms)))
+                    ms.append("Some [%s]" % "; ".join("true" if x in have else "false" for x in u) if u else "Some (@nil bool)")
+            lits.append("(%s, %s, [%s])" % (ig, tb, "; ".join(ms)))
         defs = ""
         defs += "Definition g%d_skel : list (nat * text * list text) := %s.\n" % (gi, skel)
         defs += "Definition g%d_qs : list c25_qs :=\n %s.\n" % (gi, qs)
@@ -280,8 +280,22 @@ class Group:
         return it, defs, terms
 
 
+def cid(c):
+    """a code point as a Coq term: Coq reads numerals slowly (~1 ms each), identifiers fast; the constants are defined once per coqc run"""
+    return "c%d" % ord(c) if ord(c) < 128 else "%d%%N" % ord(c)
+
+
+def ctext_ids(s):
+    return "[" + "; ".join(cid(c) for c in s) + "]" if s else "(@nil N)"
+
+
+def nid(n):
+    return "i%d" % n if n < 256 else "%d" % n
+
+
 COQ_IMPORTS = ["Model.Discovery"]
-COQ_DEFS = """
+COQ_CONSTS = "".join("Definition c%d : cp := %d%%N.\n" % (i, i) for i in range(128)) + "".join("Definition i%d : nat := %d.\n" % (i, i) for i in range(256))
+COQ_DEFS = COQ_CONSTS + """
 Definition c25_ok (r : res (list (list text * text))) (cwd : text) (e : option (list text)) : bool :=
   match r, e with
   | Ok l, Some x => parts_eqb (map snd l) x && forallb (fun o => parts_eqb (fst o) (parts_of cwd (snd o))) l
@@ -290,8 +304,8 @@ Definition c25_ok (r : res (list (list text * text))) (cwd : text) (e : option (
   end.
 (* cwd, path, ignore_non_existent_files, ignore_files, working_path, target_file_exts, check_non_existent_file, universe of results *)
 Definition c25_qs := (text * text * bool * bool * text * list text * bool * list text)%type.
-Fixpoint c25_select (m : N) (u : list text) : list text :=
-  match u with [] => [] | x :: r => if N.odd m then x :: c25_select (N.div2 m) r else c25_select (N.div2 m) r end.
+Fixpoint c25_select (m : list bool) (u : list text) : list text :=
+  match m, u with b :: m', x :: r => if b then x :: c25_select m' r else c25_select m' r | _, _ => [] end.
 Fixpoint c25_build (skel : list (nat * text * list text)) (igs : list (nat * text * option nat)) (fuel i : nat) : dir :=
   match fuel with
   | O => Dir [] [] []
@@ -308,21 +322,22 @@ Fixpoint c25_build (skel : list (nat * text * list text)) (igs : list (nat * tex
       end
   end.
 Definition c25_table (rels : list (list text)) (tb : list (nat * list nat)) : list (nat * list text) :=
-  flat_map (fun e => map (fun k => (fst e, nth k rels [[0%N]])) (snd e)) tb.
+  flat_map (fun e => map (fun k => (fst e, nth k rels [[c0]])) (snd e)) tb.
 Fixpoint c25_zip {A B} (a : list A) (b : list B) : list (A * B) :=
   match a, b with x :: a', y :: b' => (x, y) :: c25_zip a' b' | _, _ => [] end.
 Definition c25_fcase (skel : list (nat * text * list text)) (rels : list (list text)) (qs : list c25_qs)
-           (c : list (nat * text * option nat) * list (nat * list nat) * list N) : list bool :=
+           (c : list (nat * text * option nat) * list (nat * list nat) * list (option (list bool))) : list bool :=
   let '(igs, tb, masks) := c in
   let root := c25_build skel igs (length skel) 0 in
   let tbl := c25_table rels tb in
   if negb (Nat.eqb (length qs) (length masks)) then [] else
-  map (fun qm : c25_qs * N =>
+  map (fun qm : c25_qs * option (list bool) =>
          let '(cwd, path, ine, ign, wp, exts, cnef, u, m) := qm in
          c25_ok (paths_from_path_g (tbl_matches tbl) cwd root path ine ign wp exts cnef) cwd
-                (if N.eqb m 0 then None else Some (c25_select (N.pred m) u))) (c25_zip qs masks).
+                (match m with Some m => if Nat.eqb (length m) (length u) then Some (c25_select m u) else Some [[c0]] | None => None end))
+      (c25_zip qs masks).
 Definition c25_fshow (skel : list (nat * text * list text)) (rels : list (list text)) (qs : list c25_qs)
-           (c : list (nat * text * option nat) * list (nat * list nat) * list N) : list (res (list text)) :=
+           (c : list (nat * text * option nat) * list (nat * list nat) * list (option (list bool))) : list (res (list text)) :=
   let '(igs, tb, masks) := c in
   let root := c25_build skel igs (length skel) 0 in
   let tbl := c25_table rels tb in
@@ -579,6 +594,8 @@ class Queue:
                                         "query": {k: v for k, v in q.items() if k != "ids"}, "model": mo, "impl": q["real"]}, default=repr))
                         return
         ctx.coverage_extra["model_vs_impl_calls"] = self.done
+        ctx.coverage_extra["model_groups"] = ctx.coverage_extra.get("model_groups", 0) + len(groups)
+        ctx.coverage_extra["model_cases"] = ctx.coverage_extra.get("model_cases", 0) + sum(len(g.cases) for g in groups)
 
 
 def _rel(top, x):
@@ -752,7 +769,7 @@ Definition c25_h (r : text * text * text * text * text * option (list text) * bo
   && match rel with Some l => parts_eqb (relparts %s s %s) l | None => true end
   && Bool.eqb (isabs s) ia && parts_eqb (pure_parts s) pp && parts_eqb (resolve_parts (pure_parts s)) rp.
 """ % (it.t(cwd), it.t("x/"), it.t("y"), it.t(cwd), it.t("/c/e"))
-    defs = it.defs() + body   # the texts are defined before their uses
+    defs = COQ_CONSTS + it.defs() + body   # the texts are defined before their uses
     terms = ["loader_names"] + ["map c25_h %s" % coq.clist(ch) for ch in coq.chunked(rows, 150)]
     from sqlfluff.core.linter import discovery
     return strs, terms, defs, list(discovery.ignore_file_loaders.keys())
@@ -835,7 +852,7 @@ def run(ctx, coq_ok):
         for ig in one_pattern_ignores([R, R + "/sub"] if quick else dirs, loader=".sqlfluff"):
             r.run_case("full2", shape, ig, grid_queries(dirs, cwds[:2] if quick else cwds, ftargets))
         chain = [(R, R + "/sub"), (R + "/sub", R + "/sub/sub"), (R, R + "/sub/sub"), (R + "/sub", R + "/sub/oth")]
-        for ig in two_dir_ignores(chain, ["a.sql", "!a.sql"]) if quick else two_dir_ignores([(a, b) for a in dirs for b in dirs if a < b]):
+        for ig in two_dir_ignores(chain[:3], ["a.sql", "!a.sql"]) if quick else two_dir_ignores([(a, b) for a in dirs for b in dirs if a < b]):
             r.run_case("full2", shape, ig, grid_queries(dirs, [R] if quick else cwds))
             queue.flush(force=False)
         for ig in two_line_ignores([R + "/sub"], ["!a.sql", "a.sql", "sub/"]) if quick else two_line_ignores([R, R + "/sub", R + "/sub/sub"]):
@@ -867,7 +884,7 @@ def run(ctx, coq_ok):
         # ---- C. every sub-shape of the full tree (depth 2 quick, depth 3 thorough), one ignore file
         for si, shape in enumerate(all_shapes(2) if quick else all_shapes(3)):
             dirs = shape_dirs(shape)
-            if len(dirs) < 2:
+            if len(dirs) < 2 or (quick and si % 2 == 1 and len(dirs) < 7):   # quick: every second proper sub-shape, and the full tree
                 continue
             deep = shape_depth(shape) > 2
             r = fresh(shape)
@@ -880,7 +897,7 @@ def run(ctx, coq_ok):
 
         lap("C_shapes")
         # ---- D. seeded random trees, ignore files, flags
-        for i in range(12 if quick else 300):
+        for i in range(8 if quick else 300):
             random_case(ctx, fresh, i)
             queue.flush(force=False)
 
